@@ -203,6 +203,15 @@ def conditions(tier):
                           bounds=f"a {kind} holding a list is compared with three snapshots (empty, wrong, empty) and grows between them; create+fix; re-run with inline-snapshot disabled passes"))
     conds.append(_cond("list2_list2", S.L("c0", "c1"), S.L("n0", "n1"), "seq", twin=True))
     conds.append(_cond("dc_kw_ab_abc", call_olds["kw_ab"], call_news["abc"], "dataclass", twin=True))
+    # hand-written dict displays with two equal keys (the dict has fewer items than the display has entries)
+    for name, o, n, names in (("dup_key_bool", "{1: c0, 2: c1, True: c2}", "{1: n0, 2: n1}", ["c0", "c1", "c2", "n0", "n1"]),
+                              ("dup_key_last", "{1: c0, True: c1}", "{1: n0}", ["c0", "c1", "n0"]),
+                              ("dup_key_str", "{'a': c0, 'a': c1, 'b': c2}", "{'a': n0, 'b': n1}", ["c0", "c1", "c2", "n0", "n1"]),
+                              ("dup_key_nested", "[{0: c0, False: c1}, c2]", "[{0: n0}, n1]", ["c0", "c1", "c2", "n0", "n1"]),
+                              ("dup_key_call", "P(a=c0, c=[{1: c1, True: c2}])", "P(a=n0, c=[{1: n1}])", ["c0", "c1", "c2", "n0", "n1"])):
+        body = f"return fix_case({o!r}, {n!r}, {{{', '.join(f'{x!r}: {x}' for x in names)}}}, 0, 0, False)"
+        conds.append(Cond(f"dict_{name}", mkfn(f"dict_{name}", [(x, "int") for x in names], body, GLB), timeout=600, group="dict-duplicate-keys",
+                          bounds=f"previous content `{o}` (two equal keys in the display), observed `{n}`, all leaves symbolic ints"))
     return conds
 
 
